@@ -125,6 +125,7 @@ type loopInfo struct {
 
 // Exec verifies one function.
 type Exec struct {
+	atReturnHits map[int]int // at_return clause index -> number of returns it was evaluated at
 	callExcept []string // the same for the call being havocked for
 	loopExcept []string // struct types untouched by the "write everything" calls of the loop being cut
 	keepTypes []string // preserves_types of the callee being havocked for
